@@ -339,9 +339,9 @@ class CounterToken(Token, FileSystemEventHandler):
                 )
 
                 if delta > 0 and self.available > 0:
-                    with self.dependents as dependents:
-                        for dependency in dependents:
-                            dependency.check()
+                    # (through the event loop of the dependents: we are
+                    # in the thread of the file system observer)
+                    self.aio_notify()
 
             # A modified dependency not in cache
             elif path.name.endswith(".token") and path.name not in self.cache:
